@@ -3,6 +3,7 @@
 with the matrix `to_dense()` builds.  Single Mathlib modules only. -/
 import Mathlib.Algebra.BigOperators.Group.List.Basic
 import Mathlib.Algebra.Ring.Defs
+import Mathlib.Data.List.Forall2
 import BemppVerif.Model.Blocked
 
 namespace BemppVerif.Lemmas.Blocked
@@ -360,5 +361,20 @@ theorem ctorDims_sound (ss : List (List Shape)) (ncols : Nat) (rows cols : List 
         simpa using this
 
 end Ctor
+
+/-- index form of the well-formedness: `rows.length` block rows of `cols.length` blocks each, block `(i, j)` has
+`rows[i]` rows of length `cols[j]` — the form in which `ctorDims_sound` delivers it for the shapes of the blocks -/
+theorem WF_of_index {K : Type} (blocks : List (List (Mat K))) (rows cols : List Nat)
+    (hlen : blocks.length = rows.length)
+    (hrow : ∀ i (hi : i < blocks.length), (blocks[i]).length = cols.length)
+    (hblk : ∀ i j (hi : i < blocks.length) (hj : j < (blocks[i]).length),
+      ((blocks[i])[j]).length = rows.getD i 0 ∧ ∀ ρ ∈ (blocks[i])[j], ρ.length = cols.getD j 0) :
+    WF blocks rows cols := by
+  unfold WF RowWF
+  refine List.forall₂_iff_get.mpr ⟨hlen, fun i h1 h2 => ?_⟩
+  refine List.forall₂_iff_get.mpr ⟨hrow i h1, fun j g1 g2 => ?_⟩
+  have := hblk i j h1 g1
+  simp only [List.get_eq_getElem]
+  simpa [List.getD_eq_getElem?_getD, List.getElem?_eq_getElem h2, List.getElem?_eq_getElem g2] using this
 
 end BemppVerif.Lemmas.Blocked
